@@ -637,6 +637,19 @@ def main(argv):
           f"validated={tally.traces_ok} prefix-validated={tally.traces_prefix} "
           f"rejected={tally.traces - tally.traces_ok - tally.traces_prefix} partner-checks={tally.partner_checks} "
           f"known-findings={known} NEW-violations={new} time={time.time() - t0:.1f}s")
+    if os.environ.get("C12_JSON"):
+        details = {}
+        for key, path in [(k, os.path.join(out, f"replay_{k}_1.json")) for k in tally.viol]:
+            try:
+                with open(path) as f:
+                    details[key] = json.load(f)
+            except Exception:
+                details[key] = None
+        with open(os.environ["C12_JSON"], "w") as f:
+            json.dump({"runs": tally.runs, "steps": tally.steps, "verdicts": tally.verdicts, "traces": tally.traces,
+                       "validated": tally.traces_ok, "prefix_validated": tally.traces_prefix,
+                       "rejected": tally.traces - tally.traces_ok - tally.traces_prefix, "partner_checks": tally.partner_checks,
+                       "violations": tally.viol, "known_keys": list(KNOWN), "details": details}, f, default=str)
     return 1 if new else 0
 
 
